@@ -273,6 +273,22 @@ pub fn must_reject_targeted() -> Vec<(String, &'static str)> {
     v.push(p("x 1 IN SOA a b ( 1 1 1 1 4294967296 )", "minimum out of range"));
     v.push(p("x 1 IN TXT \"\\256\"", "escape out of range"));
     v.push(p("x 1 IN TXT \"\\999\"", "escape out of range"));
+    for big in ["4294967296", "4294967297", "4772185885", "5000000000", "8589934591", "8589934592", "9544371769", "9999999999", "42949672960", "99999999999", "18446744073709551615", "18446744073709551616", "340282366920938463463374607431768211456"] {
+        v.push((format!("x {} IN A 1.2.3.4", big), "ttl out of range"));
+        v.push((format!("x 1 IN SOA a b ( {} 1 1 1 1 )", big), "SOA number out of range"));
+        v.push((format!("x 1 IN SOA a b ( 1 1 {} 1 1 )", big), "SOA number out of range"));
+        v.push((format!("x 1 IN SOA a b ( 1 1 1 1 {} )", big), "SOA number out of range"));
+    }
+    for big in ["65536", "65537", "69999", "131071", "131072", "655360", "99999", "4294967296"] {
+        v.push((format!("x 1 IN MX {} m.a", big), "preference out of range"));
+        v.push((format!("x 1 IN DS {} 1 1 00", big), "key tag out of range"));
+    }
+    for big in ["256", "257", "300", "511", "512", "999", "2560", "65536"] {
+        v.push((format!("x 1 IN DS 1 {} 1 00", big), "algorithm out of range"));
+        v.push((format!("x 1 IN DS 1 1 {} 00", big), "digest type out of range"));
+        v.push((format!("x 1 IN A 1.2.3.{}", big), "malformed IPv4 address"));
+        v.push((format!("x 1 IN A {}.2.3.4", big), "malformed IPv4 address"));
+    }
     // malformed addresses
     for a in ["1.2.3", "1.2.3.4.5", "256.1.1.1", "1.2.3.256", "1..2.3", "1.2.3.", ".1.2.3", "a.b.c.d", "1.2.3.4x"] {
         v.push((format!("x 1 IN A {}", a), "malformed IPv4 address"));
